@@ -61,7 +61,7 @@
 
 From Coq Require Import PrimFloat.
 From Coq Require Import ZArith List Bool Reals Lra.
-From BZ Require Import Base.Ops Gen.Point Gen.Cubic Hand.Fit Proofs.C14.
+From BZ Require Import Base.Ops Gen.Point Gen.Cubic Hand.Fit Proofs.C14 Gen.Fit Proofs.Bridge.
 Import ListNotations.
 Open Scope R_scope.
 
@@ -167,6 +167,19 @@ Proof. exact @fit_two_points_sound. Qed.
 Theorem C14_reentry_example :
   fst (fitC ROps (fun (_ : list (pt R)) (_ _ : option (pt R)) => FitOk {| c0 := {| px := 0; py := 0 |}; c1 := {| px := 0; py := 0 |}; c2 := {| px := 0; py := 0 |}; c3 := {| px := 0; py := 0 |} |} (-2) 0) (fun (_ : list (pt R)) (_ : Z) => None) 1000 [{| px := 0; py := 0 |}; {| px := 1; py := 0 |}; {| px := 2; py := 0 |}] (Some (zeroP ROps)) None 5) = RRaise OutOfFuel.
 Proof. exact @reentry_example. Qed.
+(* the hand models ARE the definitions regenerated from the source (Proofs/Bridge.v), for every scalar carrier *)
+Theorem C14_B_are_generated :
+  forall (T : Type) (O : Ops T) (u : T), B0 O u = curvefitter_B0 O u /\ B1 O u = curvefitter_B1 O u /\ B2 O u = curvefitter_B2 O u /\ B3 O u = curvefitter_B3 O u.
+Proof. exact (fun T O u => conj (@B0_gen T O u) (conj (@B1_gen T O u) (conj (@B2_gen T O u) (@B3_gen T O u)))). Qed.
+Theorem C14_estimateBi_is_generated :
+  forall (T : Type) (O : Ops T) (bez : seg4 T) (data : list (pt T)) (u : list T), estimateBi O bez data u = CurveFit_estimateBi O bez data u.
+Proof. exact @estimateBi_gen. Qed.
+Theorem C14_computeHook_is_generated :
+  forall (T : Type) (O : Ops T) (ffrom to : pt T) (parameter : T) (bez : seg4 T) (cT x : T), computeHook O ffrom to parameter bez cT = Some x -> x = CurveFit_computeHook O ffrom to parameter bez cT.
+Proof. exact @computeHook_gen. Qed.
+Theorem C14_chordLengthParameterize_is_generated :
+  forall (T : Type) (O : Ops T) (points : list (pt T)) (l : list T), chordLengthParameterize O points = Some l -> l = CurveFit_chordLengthParameterize O points.
+Proof. exact @chordLengthParameterize_gen. Qed.
 
 Print Assumptions C14_count_le_budget.
 Print Assumptions C14_result_covers.
@@ -202,3 +215,7 @@ Print Assumptions C14_budget_present_arithmetic.
 Print Assumptions C14_fit_two_points_R.
 Print Assumptions C14_fit_two_points_sound.
 Print Assumptions C14_reentry_example.
+Print Assumptions C14_B_are_generated.
+Print Assumptions C14_estimateBi_is_generated.
+Print Assumptions C14_computeHook_is_generated.
+Print Assumptions C14_chordLengthParameterize_is_generated.
